@@ -24,8 +24,11 @@ import (
 
 // C14: every standard-library binding denotes the symbol it is named after.
 //   cases = the rows of the binding files themselves (the space is finite and checked completely):
-//           quick = both releases of stdlib/ for the host platform + syscall/unsafe/unrestricted for the host,
-//           thorough = additionally the syscall tables of every other platform.
+//           quick = both releases of stdlib/ for the host platform + syscall/unsafe/unrestricted for the host
+//                   + the syscall/unrestricted tables of every other platform for the release the installed
+//                   toolchain compiles (go/types truth per GOOS/GOARCH; decided by the theorems of
+//                   coq/Bind/ShardX*.v over coq/gen/BindX_*_gen.v and by the text reference here),
+//           thorough = additionally the syscall tables of the other release for every other platform.
 //   impl  = the compiled tables stdlib.Symbols, syscall.Symbols, unsafe.Symbols, unrestricted.Symbols observed
 //           at run time (function linker names, addressability, types, exact constants, wrapper forwarding
 //           exercised with reflect.MakeFunc stubs), and the source text of the rows
